@@ -16,7 +16,7 @@
 (* Bytes are counted, not spelled: a frame is [id, kind, size, len] (`size' *)
 (* = the size its header declares, `len' = the bytes of it that are in the  *)
 (* stream; len < size only for a truncated oversize frame at the end of the *)
-(* stream); a byte of a secured chunk is the number 100 * chunk + offset.   *)
+(* stream); secured bytes are spelled as runs <<chunk, first, last>>.         *)
 (* Every action produces the observation record (`evt') that the harness    *)
 (* (h_framing, engines `framing' and `sendbuf') produces for the same call  *)
 (* on the real code; FramingProps.tla judges both.                          *)
@@ -97,6 +97,31 @@ Reads(s, p, n, k, cnt, j, out, at) ==
        IN IF d.err THEN [p |-> p2, n |-> d.n, out |-> o2, at |-> a2, err |-> TRUE, done |-> j]
           ELSE Reads(s, p2, d.n, k, cnt, j + 1, o2, a2)
 
+\* The same function without walking through the reads in which nothing can happen: the head frame can only be
+\* decoded (or rejected) once the stream position has reached Threshold, so the run jumps to the first read that
+\* reaches it.  (TLC checks ReadsJ = Reads on the small streams, MCFraming!RunEquiv; the all-single-bytes schedule of
+\* a 27000 byte stream is one step of 27000 reads.)
+Min2(a, b) == IF a < b THEN a ELSE b
+Max2(a, b) == IF a > b THEN a ELSE b
+CeilDiv(a, b) == (a + b - 1) \div b
+Threshold(s, n) ==
+  LET f == s.frames[n + 1] IN
+  Off(s.frames, n) + (IF Peek < HdrLen \/ (s.max > 0 /\ f.size > s.max) THEN Peek ELSE Max2(Peek, f.size + Slack))
+
+RECURSIVE ReadsJ(_, _, _, _, _, _, _, _)
+ReadsJ(s, p, n, k, cnt, done, out, at) ==
+  LET tot  == Total(s.frames)
+      left == IF p >= tot THEN 0 ELSE Min2(cnt - done, CeilDiv(tot - p, k)) IN
+  IF left = 0 THEN [p |-> p, n |-> n, out |-> out, at |-> at, err |-> FALSE, done |-> done]
+  ELSE LET need == IF n = Len(s.frames) THEN left ELSE Max2(1, CeilDiv(Threshold(s, n) - p, k))
+           jmp  == Min2(need, left)
+           p2   == Min2(p + jmp * k, tot)
+           d    == Drain(s, p2, n, <<>>)
+           o2   == out \o d.out
+           a2   == at \o [x \in 1..Len(d.out) |-> done + jmp]
+       IN IF d.err THEN [p |-> p2, n |-> d.n, out |-> o2, at |-> a2, err |-> TRUE, done |-> done + jmp]
+          ELSE ReadsJ(s, p2, d.n, k, cnt, done + jmp, o2, a2)
+
 StreamRec(s) == [ev |-> "Stream", frames |-> s.frames, max |-> s.max]
 
 \* segment ends next to the places where an off-by-one would show: header end -1/0/+1, frame end -1/0, frame start +1
@@ -131,7 +156,7 @@ RunLens(fr, p, k) ==
 
 Read(k, cnt) ==
   /\ ~derr /\ ~eof /\ pos < Total(str.frames)
-  /\ LET r == Reads(str, pos, nY, k, cnt, 1, <<>>, <<>>) IN
+  /\ LET r == ReadsJ(str, pos, nY, k, cnt, 0, <<>>, <<>>) IN
      /\ pos' = r.p
      /\ nY' = r.n
      /\ derr' = r.err
@@ -168,7 +193,25 @@ DecNextSim ==
 -----------------------------------------------------------------------------
 (* Send side                                                               *)
 
-ChunkBytes(c, size) == [o \in 1..size |-> 100 * c + o]
+\* A byte string of secured chunks is spelled as its maximal runs <<chunk, first offset, last offset>> (a canonical
+\* form: two byte strings are equal iff their run sequences are equal).
+ChunkBytes(c, size) == IF size = 0 THEN <<>> ELSE <<<<c, 1, size>>>>
+RLen(rs) == LET F[i \in 0..Len(rs)] == IF i = 0 THEN 0 ELSE F[i - 1] + rs[i][3] - rs[i][2] + 1 IN F[Len(rs)]
+RCat(x, y) ==
+  IF x = <<>> THEN y ELSE IF y = <<>> THEN x
+  ELSE LET a == x[Len(x)]
+           b == y[1] IN
+       IF a[1] = b[1] /\ a[3] + 1 = b[2] THEN SubSeq(x, 1, Len(x) - 1) \o <<<<a[1], a[2], b[3]>>>> \o Tail(y)
+       ELSE x \o y
+\* the first n bytes
+RECURSIVE RTake(_, _)
+RTake(rs, n) ==
+  IF n <= 0 \/ rs = <<>> THEN <<>>
+  ELSE LET r == Head(rs)
+           l == r[3] - r[2] + 1 IN
+       IF l >= n THEN <<<<r[1], r[2], r[2] + n - 1>>>> ELSE <<r>> \o RTake(Tail(rs), n - l)
+\* bytes p0+1 .. p1 of the chunk in the buffer
+BufSlice(c, p0, p1) == IF p1 > p0 THEN <<<<c, p0 + 1, p1>>>> ELSE <<>>
 
 \* chunks are numbered in the order in which SendBuffer::write queues them
 RECURSIVE ChunksBefore(_, _)
@@ -176,13 +219,13 @@ ChunksBefore(s, m) == IF m = 0 THEN 0 ELSE ChunksBefore(s, m - 1) + Len(s[m])
 MsgChunks(s, m) == [j \in 1..Len(s[m]) |-> [c |-> ChunksBefore(s, m - 1) + j, size |-> s[m][j]]]
 
 RECURSIVE Flatten(_)
-Flatten(cs) == IF cs = <<>> THEN <<>> ELSE ChunkBytes(Head(cs).c, Head(cs).size) \o Flatten(Tail(cs))
+Flatten(cs) == IF cs = <<>> THEN <<>> ELSE RCat(ChunkBytes(Head(cs).c, Head(cs).size), Flatten(Tail(cs)))
 
 CanRead(b) == b.reading \/ b.pos # 0
 ShouldEncode(b) == b.queue # <<>> /\ ~CanRead(b)
 Proj(b) == [reading |-> b.reading, end |-> b.end, pos |-> b.pos, nq |-> Len(b.queue)]
 
-SbEmpty == [reading |-> FALSE, end |-> 0, pos |-> 0, queue |-> <<>>, buf |-> <<>>]
+SbEmpty == [reading |-> FALSE, end |-> 0, pos |-> 0, queue |-> <<>>, buf |-> 0]
 
 \* SendBuffer::write
 Submit ==
@@ -195,7 +238,7 @@ Submit ==
      ELSE LET cs == MsgChunks(scr, nm + 1)
               b2 == [sb EXCEPT !.queue = @ \o cs] IN
           /\ sb' = b2
-          /\ secured' = secured \o Flatten(cs)
+          /\ secured' = RCat(secured, Flatten(cs))
           /\ evt' = [ev |-> "Submit", ok |-> TRUE, chunks |-> [j \in 1..Len(cs) |-> cs[j].size], st |-> Proj(b2)]
           /\ UNCHANGED busy
   /\ UNCHANGED <<scr, emitted, idle, dvars>>
@@ -204,7 +247,7 @@ Submit ==
 Encode ==
   /\ ShouldEncode(sb)
   /\ LET c == Head(sb.queue)
-         b2 == [reading |-> TRUE, end |-> c.size, pos |-> sb.pos, queue |-> Tail(sb.queue), buf |-> ChunkBytes(c.c, c.size)] IN
+         b2 == [reading |-> TRUE, end |-> c.size, pos |-> sb.pos, queue |-> Tail(sb.queue), buf |-> c.c] IN
      /\ sb' = b2
      /\ evt' = [ev |-> "Encode", ok |-> TRUE, st |-> Proj(b2)]
   /\ UNCHANGED <<scr, nm, emitted, secured, idle, busy, dvars>>
@@ -221,20 +264,33 @@ Socks(b, k, cnt, j, em, first) ==
            p1  == p0 + a
            fin == end = p1 \/ (LoseTail /\ a > 0)
            b2  == [b EXCEPT !.reading = ~fin, !.end = end, !.pos = IF fin THEN 0 ELSE p1]
-       IN Socks(b2, k, cnt, j + 1, em \o SubSeq(b.buf, p0 + 1, p1), IF j = 1 THEN off ELSE first)
+       IN Socks(b2, k, cnt, j + 1, RCat(em, BufSlice(b.buf, p0, p1)), IF j = 1 THEN off ELSE first)
 
-PrefixOf(s, n) == SubSeq(s, 1, IF n > Len(s) THEN Len(s) ELSE n)
+\* the same function in closed form for k > 0 (TLC checks SocksJ = Socks on the small scripts, MCFraming!RunEquiv)
+SocksJ(b, k, cnt) ==
+  IF ~CanRead(b) THEN [b |-> b, em |-> <<>>, done |-> 0, offered |-> 0]
+  ELSE LET end == IF b.reading THEN b.end ELSE b.pos
+           p0  == IF b.reading THEN b.pos ELSE 0
+           off == end - p0
+           calls == IF off = 0 \/ LoseTail THEN 1 ELSE Min2(cnt, CeilDiv(off, k))
+           a   == Min2(calls * k, off)
+           p1  == p0 + a
+           fin == end = p1 \/ (LoseTail /\ a > 0)
+       IN [b |-> [b EXCEPT !.reading = ~fin, !.end = end, !.pos = IF fin THEN 0 ELSE p1],
+           em |-> BufSlice(b.buf, p0, p1), done |-> calls, offered |-> off]
+
+PrefixOf(s, n) == RTake(s, n)
 
 Sock(r, k, cnt) ==
   /\ CanRead(sb)
   /\ r \in {"pend", "zero"} => idle < MaxIdle
-  /\ LET x == Socks(sb, IF r = "acc" THEN k ELSE 0, cnt, 1, <<>>, 0)
-         em2 == emitted \o x.em IN
+  /\ LET x == IF r = "acc" THEN SocksJ(sb, k, cnt) ELSE Socks(sb, 0, 1, 1, <<>>, 0)
+         em2 == RCat(emitted, x.em) IN
      /\ sb' = x.b
      /\ emitted' = em2
      /\ idle' = IF r = "acc" THEN idle ELSE idle + 1
-     /\ evt' = [ev |-> "Sock", r |-> r, k |-> k, n |-> x.done, offered |-> x.offered, got |-> Len(x.em),
-                tot |-> Len(em2), dg |-> em2, ref |-> PrefixOf(secured, Len(em2)), st |-> Proj(x.b)]
+     /\ evt' = [ev |-> "Sock", r |-> r, k |-> k, n |-> x.done, offered |-> x.offered, got |-> RLen(x.em),
+                tot |-> RLen(em2), dg |-> em2, ref |-> PrefixOf(secured, RLen(em2)), st |-> Proj(x.b)]
   /\ UNCHANGED <<scr, nm, secured, busy, dvars>>
 
 \* the end of a behaviour: the harness lets the socket accept everything until the buffer is idle
@@ -245,16 +301,16 @@ Flush(b, em, fuel) ==
   IF fuel = 0 \/ SbIdle(b) THEN [b |-> b, em |-> em]
   ELSE IF ShouldEncode(b)
   THEN LET c == Head(b.queue) IN
-       Flush([reading |-> TRUE, end |-> c.size, pos |-> b.pos, queue |-> Tail(b.queue), buf |-> ChunkBytes(c.c, c.size)], em, fuel - 1)
-  ELSE LET x == Socks(b, 1000000, 1, 1, <<>>, 0) IN Flush(x.b, em \o x.em, fuel - 1)
+       Flush([reading |-> TRUE, end |-> c.size, pos |-> b.pos, queue |-> Tail(b.queue), buf |-> c.c], em, fuel - 1)
+  ELSE LET x == Socks(b, 1000000, 1, 1, <<>>, 0) IN Flush(x.b, RCat(em, x.em), fuel - 1)
 
 End ==
   /\ nm = Len(scr)
   /\ LET x == Flush(sb, emitted, 64) IN
      /\ sb' = x.b
      /\ emitted' = x.em
-     /\ evt' = [ev |-> "End", idle |-> SbIdle(x.b), tot |-> Len(x.em), dg |-> x.em, ref |-> PrefixOf(secured, Len(x.em)),
-                want |-> Len(secured), st |-> Proj(x.b)]
+     /\ evt' = [ev |-> "End", idle |-> SbIdle(x.b), tot |-> RLen(x.em), dg |-> x.em, ref |-> PrefixOf(secured, RLen(x.em)),
+                want |-> RLen(secured), st |-> Proj(x.b)]
   /\ UNCHANGED <<scr, nm, secured, idle, busy, dvars>>
 
 \* write sizes: "near" = the write ends 1 or 2 bytes into the chunk, in its middle, 1 byte before its end or at its end
